@@ -566,8 +566,10 @@ pub fn do_work(rig: &mut Rig, log: &mut Vec<Value>) -> Value {
     let mut newv = Vec::new();
     let mut newn = Vec::new();
     let mut newt = Vec::new();
+    let panicked = v["kind"] == "panic";
     for (j, p) in rig.outs.iter_mut().enumerate() {
-        let (l, n, t) = p.peek_new();
+        // After a panic inside work() the streams may be poisoned: do not touch them.
+        let (l, n, t) = if panicked { (vec![], vec![], vec![]) } else { catch(|| p.peek_new()).unwrap_or_default() };
         let pr = if p.is_packet() { l.len() as i64 } else { p.avail() as i64 - ob[j] as i64 };
         produced.push(pr);
         newv.push(l);
@@ -871,7 +873,16 @@ pub fn cmd_bench(args: &[String]) -> i32 {
             continue;
         }
         let spec: Value = serde_json::from_str(&line).expect("json");
-        let log = run_scenario(&spec);
+        // A panic of the harness itself (e.g. a stream left poisoned by the
+        // block) ends the scenario; it is reported, not fatal.
+        let log = match catch(|| run_scenario(&spec)) {
+            Ok(l) => l,
+            Err(p) => {
+                let _ = rustradio::verif::trace_take();
+                vec![json!({"ev": "scenario", "block": spec["block"], "params": spec["params"], "mode": spec["mode"], "id": spec["id"],
+                    "error": format!("harness panic: {p}")})]
+            }
+        };
         n += 1;
         for e in log {
             if e["ev"] == "work" {
